@@ -27,9 +27,21 @@ def run(R):
               "all other arguments in a randomly chosen legitimate representation (integer dtype when whole, Fortran order, strided, "
               "list). Membership is also compared for in-gamut targets towards the lower- and upper-bound corners of the gamut (margin "
               "2^-1..2^-7 of the range), asserted row by row where both twins' captures lie in [1,100], recorded otherwise. "
+              "Membership is further compared for targets next to the upper faces of the gamut on both sides, in the plane of the gamut "
+              "(capture of lb + (1 +- e)(xf - lb), xf = all sources at ub, or a random upper face of the box where the capture map is "
+              "one-to-one; e = 2^-2..2^-10 of the range, down to 2^-18 for flat gamuts, whose membership is decided by a residual and not "
+              "by qhull): a target that needs (1 + e) times the upper bound is outside in every unit. "
+              "Every pair is also fitted with model='poisson' (default solver; the Poisson objective is multiplied by c under the unit "
+              "change, so predictions scale by c and unique intensities by 1/s), judged like the default gaussian fit. "
+              "Every fourth system (large capture units) has a twin whose capture unit is 32..128 times smaller (twin captures up to 1e4: "
+              "beyond C04's 1..100 band, inside C15's regime 'captures >= 1, bounds in [0.05,10]'): membership (rows with captures in "
+              "[1,100] x [1,100c]), ranges, default gaussian and Poisson fits asserted with the same scale-aware tolerances "
+              "(2e-2 (1 + c) capture units); a fit that reports non-convergence there is counted; the high-accuracy pair is recorded only "
+              "(its absolute 1e-10 gaps are unattainable on captures of 1e4). "
               "Non-trivial: lb > 0 or an active bound / out-of-gamut target.")
     HIGH = dict(solver="CLARABEL", tol_gap_abs=1e-10, tol_gap_rel=1e-10, tol_feas=1e-10, max_iter=500)
     stress = []
+    wide_high = []
     for si in range(nsys):
         k = "s%d" % si
         if not R.want(k):
@@ -103,6 +115,13 @@ def run(R):
                 s = float(rng.choice([2.0, 4.0]))       # keep the twin's bounds within [0.05, 10]
         else:
             s = 2.0 ** int(rng.integers(-13, 14)); cc = 2.0 ** int(rng.integers(-13, 14))
+        r3 = R.rng(3, si)      # (separate stream: the draws of the strata added later do not shift the older ones)
+        # large capture units (every fourth system): the twin counts captures in a unit 32..128 times smaller, so that its captures
+        # reach 1e3..1e4 - beyond the 1..100 band of C04 but inside C15's own regime (captures >= 1, bounds in [0.05, 10])
+        wide = bool(asserted and si % 4 == 2)
+        if wide:
+            cc = float(r3.choice([32.0, 64.0, 128.0]))
+        R.count("capture-unit-change:%s" % ("stress" if not asserted else ("32..128 (twin captures up to 1e4)" if wide else "1/4..4")))
         A2 = A * (s * cc); lb2 = lb / s; ub2 = ub / s; base2 = base * cc
         # targets: inside with margin, outside with margin, boundary-active
         Xin = lb + dyadic(rng, 0.25, 0.75, 3, size=(3, ns)) * (ub - lb)
@@ -115,11 +134,27 @@ def run(R):
         tt = np.array([2.0 ** -j for j in range(1, 8)])
         Xc = np.vstack([lb + tt[:, None] * (ub - lb), ub - tt[[1, 4], None] * (ub - lb)])
         Bc = Xc @ A.T + base
-        Bm = np.vstack([B, Bc]); Bm2 = Bm * cc
-        # the regime of the asserted clause: captures >= 1 (and <= 100) in BOTH twins, row by row
-        inreg = (Bm.min(1) >= 1) & (Bm2.min(1) >= 1) & (Bm.max(1) <= 100) & (Bm2.max(1) <= 100)
+        # membership only: targets next to the upper faces of the gamut on BOTH sides, in the plane of the gamut: the capture of
+        # x = lb + (1 +- e)(xf - lb), xf on an upper face of the box (all sources at ub = 'white'; or, where the capture map is
+        # one-to-one (ns <= nf), a random face: some sources at ub, the others in between), e = 2^-2 .. 2^-10 of the range for
+        # full-dimensional gamuts (decided by qhull, whose planes are accurate to ~1e-7) and down to 2^-18 for flat gamuts (decided
+        # by the residual of the convex-combination programme). '+' needs more than the upper bound: outside; '-' is inside.
+        # White is an extreme point of every gamut (A >= 0), so the '+' side is outside also for under-determined systems.
+        rows_n, side_n = [], []
+        for j, e in enumerate([2.0 ** -i for i in range(2, 19 if ns < nf else 11)]):
+            xf = ub
+            if ns <= nf and j % 2 == 1:
+                at_ub = r3.random(ns) < 0.5; at_ub[int(r3.integers(ns))] = True
+                xf = np.where(at_ub, ub, lb + dyadic(r3, 0.25, 0.75, 3, size=ns) * (ub - lb))
+            rows_n += [lb + (1 + e) * (xf - lb), lb + (1 - e) * (xf - lb)]; side_n += [False, True]
+        Bn = np.array(rows_n) @ A.T + base; side_n = np.array(side_n)
+        Bm = np.vstack([B, Bc, Bn]); Bm2 = Bm * cc
+        # the regime of the asserted clause: captures >= 1 (and <= 100; the twin in large capture units: <= 100 c) in BOTH twins, row by row
+        hi2 = 100.0 * cc if wide else 100.0
+        inreg = (Bm.min(1) >= 1) & (Bm2.min(1) >= 1) & (Bm.max(1) <= 100) & (Bm2.max(1) <= hi2)
         inreg[:len(B)] = True      # (the rows used so far keep their status)
-        c = dict(k=k, nf=nf, ns=ns, A=A, lb=lb, ub=ub, baseline=base, s=s, c=cc, asserted=asserted, B=B, whole_bounds=wholeb, B_corners=Bc)
+        c = dict(k=k, nf=nf, ns=ns, A=A, lb=lb, ub=ub, baseline=base, s=s, c=cc, asserted=asserted, B=B, whole_bounds=wholeb, B_corners=Bc,
+                 B_near_upper_faces=Bn, large_capture_units=wide)
         R.count("asserted:%s" % asserted); R.count("lb:" + lbk); R.count("shape:%s" % ("under" if ns > nf else ("exact" if ns == nf else "over")))
         # representation of the arguments (implementation only): each twin is written independently; whole-number bounds mostly as integers
         rr = R.rng(2, si)
@@ -155,6 +190,9 @@ def run(R):
         else:
             h1 = np.asarray(h1); h2 = np.asarray(h2)
             R.count("membership-rows-compared-in-regime", int(inreg.sum())); R.count("membership-corner-rows-outside-regime(recorded)", int((~inreg).sum()))
+            nb = len(B) + len(Bc); hn = h1[nb:]
+            R.count("near-upper-face-rows:outside-side", int((~side_n).sum())); R.count("near-upper-face-rows:outside-side:reported-in-gamut", int(hn[~side_n].sum()))
+            R.count("near-upper-face-rows:inside-side", int(side_n.sum())); R.count("near-upper-face-rows:inside-side:reported-in-gamut", int(hn[side_n].sum()))
             if not np.array_equal(h1[inreg], h2[inreg]):
                 if asserted:
                     R.failB(dict(c, targets=Bm[inreg], original=h1[inreg], twin=h2[inreg]), "gamut membership changed under the unit change s=%g, c=%g: %s vs %s" % (s, cc, h1[inreg].tolist(), h2[inreg].tolist()), sig + ":in_hull")
@@ -164,22 +202,35 @@ def run(R):
                 devs["in_hull_changed"] = 1.0
                 R.count("membership-changed-outside-regime(recorded)")
         # fits
-        for mode, kw in (("default", {}), ("high", HIGH)):
+        # the Poisson model (model='poisson', default solver) is unit equivariant too: its objective sum b log(p) - p, p = A x + baseline,
+        # is multiplied by c (plus a constant) when b, A and baseline are; A >= 0 and all targets are >= 1 here
+        for mode, kw in (("default", {}), ("high", HIGH), ("poisson", dict(model="poisson"))):
             (sa, oa) = call(lsq_linear, gA, B, lb=glb, ub=gub, baseline=gbase, return_pred=True, **kw)
             (sb, ob) = call(lsq_linear, gA2, B2, lb=glb2, ub=gub2, baseline=gbase2, return_pred=True, **kw)
+            R.count("fit-pair:%s:%s" % (mode, "baseline-nonzero" if np.any(base != 0) else "baseline-zero"))
             if mode == "high" and "runtime" in (sa, sb):
                 # the high-accuracy settings are the harness's choice: a solver that reports non-convergence with them does not
                 # deliver "a high-accuracy solver"; dreye reports it (RuntimeError) instead of returning a non-solution
                 R.count("high-accuracy-solver-did-not-converge"); continue
+            if wide and sa == "ok" and sb == "runtime":
+                # captures of 1e3..1e4 are beyond the band in which C04 promises that the default fit returns; a fit that REPORTS
+                # non-convergence there (RuntimeError) is counted; what is asserted is that the results that are returned are equivariant
+                R.count("large-capture-units:fit-reported-non-convergence:" + mode); continue
             if sa != "ok" or sb != "ok":
                 if asserted:
                     R.failB(dict(c, impl_error=[oa, ob]), "fit raised: %s / %s" % (oa, ob), sig + ":fit:raises:" + mode)
                 continue
-            tolc, tolx = (2e-2, 1e-2) if mode == "default" else (2e-3, 1e-6)
+            tolc, tolx = (2e-3, 1e-6) if mode == "high" else (2e-2, 1e-2)      # (default engine settings: gaussian and Poisson)
             dB = float(np.max(np.abs(ob[1] - cc * oa[1])))
             errA = np.linalg.norm(oa[1] - B, axis=1); errB = np.linalg.norm(ob[1] - B2, axis=1)
             dE = float(np.max(np.abs(errB - cc * errA)))
             devs["pred:" + mode] = dB / max(cc, 1.0); devs["err:" + mode] = dE / max(cc, 1.0)
+            if wide and mode == "high":
+                # the harness's high-accuracy settings are ABSOLUTE gaps of 1e-10, which no double-precision solver reaches on squared
+                # captures of 1e6..1e8: CLARABEL then hands back its best iterate as 'optimal_inaccurate' (which dreye accepts), e.g.
+                # thorough seed 0 case s90: 1e-2 base capture units / 1e-3 of the range off. The 2e-3 accuracy is C04's promise for ITS
+                # band (1..100) with settings that are attainable there; in large capture units the pair is recorded, not asserted
+                wide_high.append(dB / (1 + cc)); continue
             if asserted:
                 if dB > tolc * (1 + cc):
                     R.failB(dict(c, mode=mode, original=oa[1], twin=ob[1]), "predicted captures do not scale by c=%g (max deviation %.4g > %.4g)" % (cc, dB, tolc * (1 + cc)), sig + ":fit-pred:" + mode)
@@ -227,5 +278,6 @@ def run(R):
                 R.cert(ok)
                 if not ok:
                     R.failA(dict(k=k), "exact model: ranges of the twin are not an exact multiple of the original ranges")
-    R.notes["stress_max_deviation"] = {kk: max([d.get(kk, 0.0) for d in stress] + [0.0]) for kk in ("pred:default", "pred:high", "err:default", "range", "in_hull_changed")}
+    R.notes["stress_max_deviation"] = {kk: max([d.get(kk, 0.0) for d in stress] + [0.0]) for kk in ("pred:default", "pred:high", "pred:poisson", "err:default", "range", "in_hull_changed")}
     R.notes["stress_cases"] = len(stress)
+    R.notes["large_capture_units_high_accuracy_pairs(recorded)"] = dict(n=len(wide_high), max_pred_deviation_over_1_plus_c=max(wide_high + [0.0]))
